@@ -425,6 +425,9 @@ func (e *Engine) lookup(st *State, in *ssa.Lookup) []*State {
 		set(st, top, top)
 		return []*State{st}
 	}
+	if outs := e.structKeyLookup(st, in, g, set); outs != nil {
+		return outs
+	}
 	if m := e.byteMap(g); m != nil {
 		idx := e.eval(st, in.Index)
 		bs := idx.byteSet()
